@@ -392,6 +392,12 @@ EFFECT_PATTERNS = [
     ("static_item", r"^\s*(?:pub(?:\([^)]*\))?\s+)?static\s+(?!mut\b)\w+"),
     ("file_io", r"\bstd::fs\b|\bFile::(open|create)\b"),
     ("global_alloc", r"#\[global_allocator\]"),
+    # identity of the executing thread / process, threads started by the library itself, leaked or shared
+    # allocations, allocation addresses used as data: each can make a result depend on who calls, or when
+    ("thread_identity", r"\bthread::current\b|\bThreadId\b|\bprocess::id\b|\bavailable_parallelism\b"),
+    ("spawned_thread", r"\bthread::(spawn|scope|Builder)\b|\brayon\b|\.par_iter\b"),
+    ("shared_ownership", r"\bArc<|\bArc::new\b|\bRc<|\bRc::new\b|\bBox::leak\b|\bmem::forget\b"),
+    ("address_as_data", r"\baddr_of!|\bptr::addr_of\b|\bas \*const \(\) as|\{:p\}|\.as_ptr\(\)\s*as\s+\w*int|\bexpose_addr\b|\bexpose_provenance\b"),
 ]
 effects = []
 files = sorted(f for f in os.listdir(os.path.join(REPO, "src")) if f.endswith(".rs"))
